@@ -1,0 +1,70 @@
+// Verification hooks (observation only). The whole file is inert unless the build defines
+// CB_VERIF, and every hook is additionally inert unless its CB_VERIF_* environment variable is set.
+#pragma once
+#ifdef CB_VERIF
+#include "ast.h"
+#include <cstdint>
+#include <cstdio>
+#include <cstdlib>
+#include <string>
+
+inline bool cbv_on(const char *name) {
+    const char *v = std::getenv(name);
+    return v && *v;
+}
+
+// CB_VERIF_SCHED_TRACE=1: one "CBV <event> ..." line per scheduler event on stderr
+inline bool cbv_sched_on() {
+    static int on = -1;
+    if (on < 0) on = cbv_on("CB_VERIF_SCHED_TRACE") ? 1 : 0;
+    return on == 1;
+}
+#define CBV_SCHED(...)                                                         \
+    do {                                                                       \
+        if (cbv_sched_on()) {                                                  \
+            std::fflush(stdout);                                               \
+            std::fprintf(stderr, "CBV " __VA_ARGS__);                          \
+            std::fprintf(stderr, "\n");                                        \
+        }                                                                      \
+    } while (0)
+
+// CB_VERIF_CLOCK=<step>: every clock read returns a virtual clock advancing <step> ms per read
+inline int64_t cbv_clock(int64_t real_ms) {
+    static int64_t step = -2, now = 1000000;
+    if (step == -2) {
+        const char *v = std::getenv("CB_VERIF_CLOCK");
+        step = (v && *v) ? std::atoll(v) : -1;
+    }
+    if (step < 0) return real_ms;
+    now += step;
+    if (cbv_sched_on()) std::fprintf(stderr, "CBV clock %lld\n", (long long)now);
+    return now;
+}
+
+// CB_VERIF_DUMP_AST=1: S-expression of the whole program AST on stderr after parsing
+inline void cbv_dump_ast(const ASTNode *n, std::FILE *f) {
+    if (!n) { std::fputs("nil", f); return; }
+    std::fprintf(f, "(n%d", static_cast<int>(n->node_type));
+    if (!n->op.empty()) std::fprintf(f, " op=%s", n->op.c_str());
+    if (!n->name.empty()) std::fprintf(f, " name=%s", n->name.c_str());
+    if (n->node_type == ASTNodeType::AST_NUMBER) std::fprintf(f, " int=%lld", (long long)n->int_value);
+    if (!n->cast_target_type.empty()) std::fprintf(f, " cast=%s", n->cast_target_type.c_str());
+    if (!n->type_arguments.empty()) std::fprintf(f, " targs=%zu", n->type_arguments.size());
+    auto one = [&](const char *tag, const std::unique_ptr<ASTNode> &c) {
+        if (c) { std::fprintf(f, " %s", tag); cbv_dump_ast(c.get(), f); }
+    };
+    auto many = [&](const char *tag, const std::vector<std::unique_ptr<ASTNode>> &v) {
+        if (!v.empty()) {
+            std::fprintf(f, " %s[", tag);
+            for (size_t i = 0; i < v.size(); i++) { if (i) std::fputc(' ', f); cbv_dump_ast(v[i].get(), f); }
+            std::fputc(']', f);
+        }
+    };
+    one("L", n->left); one("R", n->right); one("T", n->third); one("C", n->condition);
+    one("I", n->init_expr); one("U", n->update_expr); one("B", n->body);
+    one("X", n->array_index); one("Z", n->cast_expr);
+    many("A", n->arguments); many("D", n->array_indices); many("S", n->statements);
+    many("K", n->children); many("P", n->parameters);
+    std::fputc(')', f);
+}
+#endif // CB_VERIF
